@@ -8,6 +8,7 @@ import Pypika.Guards
 import Pypika.DDL
 import Pypika.Replace
 import Pypika.Names
+import Pypika.Builder
 /-!
 # JSON → model values (driver side only; no theorem depends on this file)
 -/
@@ -232,6 +233,80 @@ mutual
     pure (.mk (← dQuery (fld j "base")) ops (← (← fArr j "orderbys").mapM dOrdItem)
       (← fOptNat j "limit") (← fOptNat j "offset") (← fOptStr j "alias"))
 end
+
+
+/-! builder calls (`Builder.lean`) -/
+
+partial def dArg (j : Json) : D B.Arg := do
+  match (← (fld j "k").getStr?) with
+  | "term" => pure (.term (← dTerm (fld j "t")))
+  | "str" => pure (.str (← fStr j "s"))
+  | "const" => pure (.const (← dVal (fld j "v")))
+  | "list" => pure (.list (← (← fArr j "xs").mapM dArg))
+  | "tuple" => pure (.tuple (← (← fArr j "xs").mapM dArg))
+  | s => throw s!"arg kind {s}"
+
+def dArgs (j : Json) (k : String) : D (List B.Arg) := do (← fArr j k).mapM dArg
+
+def dBSt (j : Json) : D B.St := do
+  let q ← dQuery (fld j "q")
+  let stars ← (← fArr j "star_tables").mapM (jOpt dTRef)
+  pure { r := B.QR.ofQ q, selectStar := ← fBool j "select_star", starTables := stars,
+         subCount := ← fNat j "sub_count", returnStar := ← fBool j "return_star" }
+
+def dBCall (j : Json) : D B.Call := do
+  let strs (k : String) : D (List Str) := do (← fArr j k).mapM jStr
+  match (← (fld j "m").getStr?) with
+  | "from_" => pure (.from_ (← dSrc (fld j "src")) (← fNat j "sub_count"))
+  | "from_str" => pure (.fromStr (← fStr j "name"))
+  | "with_" => pure (.with_ (← dSrc (fld j "src")) (← fStr j "name"))
+  | "into" => pure (.into (← dSrc (fld j "src")))
+  | "select" => pure (.select (← dArgs j "args"))
+  | "delete" => pure .delete
+  | "update" => pure (.update (← dSrc (fld j "src")))
+  | "columns" => pure (.columns (← dArgs j "args"))
+  | "insert" => pure (.insert (← dArgs j "args"))
+  | "replace" => pure (.replace (← dArgs j "args"))
+  | "insert_or_replace" => pure (.insertOrReplace (← dArgs j "args"))
+  | "force_index" => pure (.forceIndex (← strs "names"))
+  | "use_index" => pure (.useIndex (← strs "names"))
+  | "distinct" => pure .distinct
+  | "for_update" => pure .forUpdate
+  | "ignore" => pure .ignore
+  | "with_totals" => pure .withTotals
+  | "prewhere" => pure (.prewhere (← dTerm (fld j "c")))
+  | "where" => pure (.where_ (← dTerm (fld j "c")))
+  | "having" => pure (.having (← dTerm (fld j "c")))
+  | "groupby" => pure (.groupby (← dArgs j "args"))
+  | "rollup" => pure (.rollup (← dArgs j "args") (← fBool j "mysql"))
+  | "orderby" => pure (.orderby (← dArgs j "args") (← jOptOrd (fld j "order")))
+  | "join" => do
+    let kind : B.JoinKind ← match (← (fld j "kind").getStr?) with
+      | "on" => pure (.on (← jOpt dTerm (fld j "crit")) (← fOptStr j "collate"))
+      | "on_field" => pure (.onField (← strs "names"))
+      | "using" => pure (.using (← strs "names"))
+      | "cross" => pure .cross
+      | s => throw s!"join kind {s}"
+    pure (.join (← dSrc (fld j "item")) (← fStr j "how") kind)
+  | "limit" => pure (.limit (← fNat j "n"))
+  | "offset" => pure (.offset (← fNat j "n"))
+  | "slice" => pure (.slice (← fOptNat j "start") (← fOptNat j "stop"))
+  | "set" => pure (.set (← dArg (fld j "field")) (← dArg (fld j "value")))
+  | "for_update_ex" => pure (.forUpdateEx (← fBool j "nowait") (← fBool j "skip_locked") (← strs "of"))
+  | "on_duplicate_key_update" => pure (.onDuplicateKeyUpdate (← dArg (fld j "field")) (← dArg (fld j "value")))
+  | "on_duplicate_key_ignore" => pure .onDuplicateKeyIgnore
+  | "modifier" => pure (.modifier (← fStr j "value"))
+  | "distinct_on" => pure (.distinctOn (← dArgs j "args"))
+  | "on_conflict" => pure (.onConflict (← dArgs j "args"))
+  | "do_nothing" => pure .doNothing
+  | "do_update" => pure (.doUpdate (← dArg (fld j "field")) (← jOpt dArg (fld j "value")))
+  | "using" => pure (.using (← dSrc (fld j "src")))
+  | "top" => pure (.top (← jOpt (·.getInt?) (fld j "value")) (← fBool j "percent") (← fBool j "with_ties"))
+  | "final" => pure .final
+  | "sample" => pure (.sample (← fNat j "n") (← fOptNat j "offset"))
+  | "limit_by" => pure (.limitBy (← fNat j "n") (← fNat j "offset") (← dArgs j "by"))
+  | "hint" => pure (.hint (← fStr j "label"))
+  | s => throw s!"builder call {s}"
 
 /-- schema chain given outermost first -/
 def schOfChain : List Str → Option Sch
